@@ -37,7 +37,8 @@ def IsSimplex (α : ι → ℝ) : Prop := (∀ i, 0 ≤ α i) ∧ ∑ i, α i = 
 /-- Softmax. -/
 noncomputable def softmax (x : ι → ℝ) (i : ι) : ℝ := Real.exp (x i) / ∑ j, Real.exp (x j)
 
-/-- Squared Euclidean norm of a plain vector, as a dot product. -/
-def sqNorm (x : κ → ℝ) : ℝ := x ⬝ᵥ x
+/-- Euclidean norm of a plain vector `x : κ → ℝ`, via the dot product.  (Mathlib's `‖·‖` on a
+bare function type is the sup norm, so it is deliberately *not* used in this library.) -/
+noncomputable def l2norm (x : κ → ℝ) : ℝ := Real.sqrt (x ⬝ᵥ x)
 
 end TorchJDSpec
